@@ -2,7 +2,7 @@
 from core import expr_str, strip, subexprs, callee_keys, AnchorMissing
 from kinds import all_places, origin
 from absint import Interp, Sym, Agg, Ref, HRef, TOP, some, NONE, std_oracle, chain
-from collmodel import coll_oracle, Vec, new_vec, heap_get, load
+from collmodel import coll_oracle, Vec, new_vec, heap_get, load, install
 from orderings import weak_orderings
 
 EXPLANATION = (
@@ -233,6 +233,7 @@ def r5_archive(ctx):
     ctx.check(not bad, "C07.R5", comp.key, "reinsert-without-duplicates",
               "archive holding elitists %s (equal numbers = equal individuals), population of %s of which elitists %s are already members: re-insertion %s" % (bad[0] if bad else ("", "", "", "")), detail="%d presence patterns" % m, loc=comp.loc())
     ctx.count("archive_reinsertion_scenarios", m)
+    r7_individual_equality(ctx, "C07.R5")
     # the update component shows the current population with its own capacity
     up = F.method("mahf::components::archive::ElitistArchiveUpdate", "execute", "mahf::components::Component")
     calls = [(b, t) for b, t in up.body.calls() if t["f"].get("key") == ARCH + "::update"]
@@ -244,6 +245,29 @@ def r5_archive(ctx):
         names = [c for c in c1 if c not in ("deref", "deref_mut")]
         good = names[:2] == ["current", "populations"] and l2 == ("arg", 1) and f2 == [F.field_index("mahf::components::archive::ElitistArchiveUpdate", "num_elitists")]
     ctx.check(good, "C07.R5", up.key, "shows-current-population", "the archive is not updated from the current population with the component's capacity", loc=up.loc())
+
+
+
+def r7_individual_equality(ctx, rule="C07.R7"):
+    """two individuals are equal iff solution AND objective are equal (the equality `already there` / `the selected
+    molecule` / `contains` rest on)"""
+    F = ctx.facts
+    # the equality that `already there` rests on: two individuals are equal iff solution AND objective are equal
+    eqs = F.fns.get("<%s as core::cmp::PartialEq>::eq" % IND, [])
+    bad = []
+    for fe in eqs[:1]:
+        for sa, sb in (("x", "x"), ("x", "y")):
+            for oa, ob in (("1", "1"), ("1", "2"), ("1", None), (None, None)):
+                a = Agg("adt", IND, "Individual", [Sym("s:" + sa), some(Sym("o:" + oa)) if oa else NONE])
+                b = Agg("adt", IND, "Individual", [Sym("s:" + sb), some(Sym("o:" + ob)) if ob else NONE])
+                it = install(Interp(fe.body, chain(coll_oracle, std_oracle), [Ref(10001, [], frame="root"), Ref(10002, [], frame="root")], facts=F, inline=INLINE, max_visits=6))
+                it.extra_env = {10001: a, 10002: b}
+                it.init_state = {"rank": {"o:1": 1, "o:2": 2}, "heap": {}, "next_vec": 0}
+                want = sa == sb and oa == ob
+                for p in it.run():
+                    if p.end != "return" or p.ret is not want:
+                        bad.append(("%s/%s vs %s/%s" % (sa, oa, sb, ob), "yields %s, expected %s" % (p.ret if p.end == "return" else p.end, want)))
+    ctx.check(len(eqs) == 1 and not bad, rule, IND, "equality-is-solution-and-objective", "individuals (solution/objective) %s: == %s" % (bad[0] if bad else ("", "no single PartialEq impl")), loc=eqs[0].loc() if eqs else None)
 
 
 def r4_templates(ctx):
@@ -273,6 +297,7 @@ def r4_templates(ctx):
 
 
 def run(ctx):
+    ctx.guard("C07.R6", "`better` is the numeric order of the objective values (ties incl. -0.0 / +0.0 are ties)", lambda: __import__("c09").r3_total_order(ctx, "C07.R6"))
     ctx.guard("C07.REQ", "requirements are checked", lambda: __import__("initspec").check_requires(ctx, "C07"))
     ctx.guard("C07.INIT", "init installs the configured state", lambda: __import__("initspec").check_for(ctx, "C07"))
     ctx.guard("C07.K17", "constructor fidelity", lambda: __import__("ctor").check_for(ctx, "C07", 5))
